@@ -3,11 +3,16 @@
 Only the property text and a scratch worktree path are given (nothing from /verif)."""
 import json, sys
 pid, wt = sys.argv[1], sys.argv[2]
-hard = len(sys.argv) > 3 and sys.argv[3] == "hard"
+hard = len(sys.argv) > 3 and sys.argv[3] in ("hard", "surface")
+surface = len(sys.argv) > 3 and sys.argv[3] == "surface"
 p = next(json.loads(l) for l in open('/verif/properties.jsonl') if json.loads(l)['id'] == pid)
 HARD = """
 
 IMPORTANT - make them HARD to find: assume that, besides the existing suite, a strong randomized property-based test harness already exists for this property, with edge-biased generators (0, 1, MAX, 2^k and 2^k +- 1, limbs drawn from {0, MAX, 1, 2^63, ...}, runs of ones ending at limb boundaries, random bit lengths, operands related to each other as a, a +- 1, !a, -a, zero-padded values), all the limb widths the property lists, and an exact big-integer oracle for every API form. Your changes should SURVIVE such a harness unless its generator happens to be built for exactly your trigger. Good directions: a trigger that is a conjunction of two or three independent conditions (a specific width AND a specific operand relation AND a specific form); only ONE of the many API forms affected (one operator impl such as `&T op T`, one trait impl that delegates differently, one `_assign` form, one wrapper type); only one unusual width (a non-power-of-two limb count, a specific boxed precision such as 3 or 33 limbs, or mixed left/right widths); a value class that edge-biased generators do not produce (e.g. a specific middle limb equal to a constant while its neighbours are random, an interior carry pattern, a magic constant); history / state dependence (a value that was produced by a particular earlier operation, an object reused after a particular call); or behaviour that differs only between the optimized and the debug-assertion build.""" if hard else ""
+if surface:
+    HARD += """
+
+FOR THIS ROUND, look for your two sites in the RARELY USED API SURFACE that still belongs to this property: trait impls that duplicate an inherent method (num-traits traits such as WrappingAdd / CheckedMul / Zero / One / Num / Bounded / ConstZero, subtle traits, core::ops impls for every reference / value / assign combination, From / TryFrom / AsRef conversions, Default / Ord / Hash impls), wrapper types (Wrapping, Checked, NonZero, Odd) forwarding to the inner type, feature-gated code (serde, der, rlp, hybrid-array, zeroize, rand_core, extra-sizes), macro-generated impls that exist only for particular type aliases or size combinations (e.g. one concat / split / rem_mixed combination, one alias's Encoding impl, the extra-sizes aliases), const fns versus their trait counterparts, and rarely taken early-return / fallback branches. A change that alters ONE such impl (one size combination of a macro, one forwarding impl, one reference/value form) while every commonly used route stays correct is ideal."""
 print(f"""You are helping evaluate a verification effort for the Rust crate RustCrypto/crypto-bigint (a constant-time big-integer library). You have your own scratch git worktree of the crate at {wt} (work ONLY there; never read or touch /repo or /verif; the machine is offline, use `cargo ... --offline`; keep build output inside the worktree's own target/ directory, and limit builds to `-j 4`).
 
 Here is a semantic property the crate should satisfy:
